@@ -12,7 +12,7 @@
    globals); the list `ws` of an execution collects every storage written in place. *)
 From Coq Require Import List Arith Bool String.
 Import ListNotations.
-Require Import C13.Own C13.Proofs C13.Check C13.gen.OwnIR.
+Require Import C13.Own C13.Proofs C13.Check C13.Slots C13.gen.OwnIR.
 
 (* 1. Soundness of the checker, for every program, every candidate set, every number of caller storages,
       every start state satisfying the invariant and every execution (unbounded length, any order). *)
@@ -68,6 +68,19 @@ Proof.
   intros p Hp ncaller ws st' He.
   pose proof all_allowed_ok as H. rewrite forallb_forall in H. specialize (H p Hp).
   exact (own_check_sound_init ncaller (snd p) (fst p) ws st' H He).
+Qed.
+
+(* 2c. The cache-fill rule.  `self.<a> = v` outside a constructor changes the existing operator object (an in-place site of the
+      object-identity program).  The translator permits it without an allow-list entry only if a is private and is not among the
+      attributes that the methods observing the matrix or the representation of the operator (_matmul, _t_matmul, _size, to_dense,
+      _diagonal, representation, __getitem__, _expand_batch, ... and everything they reach through self.m(..) / super().m(..) in any
+      class related by inheritance) may read -- an operator filling its own lazily computed cache does not change the matrix it
+      represents.  `cache_fill_sites` is the regenerated side table (attribute, readers of the class family); the conditional
+      programs of these sites are part of `allowed_progs` (theorem 2b, assumption "receiver-slot").  Attributes that ARE read by
+      such methods (interpolation memos, _args_memo, _dtype) are not covered by the rule and need an explicit allow-list entry. *)
+Theorem C13_cache_fills_unread_by_matrix_observers : forall e, In e cache_fill_sites -> ~ In (fst e) (snd e).
+Proof.
+  intros e He. pose proof all_cache_fills_unread as H. rewrite forallb_forall in H. exact (slot_unread_sound _ _ (H e He)).
 Qed.
 
 (* 3. The sites the translator had to leave out of `all_progs` because their target may hold caller memory
